@@ -537,9 +537,18 @@ def oracleC16 (s : SyncCase) : Option String :=
             orElse (check ((stripDecorated cached).eqv (stripDecorated b)) "the update changed something other than labels, annotations, status and finalizers") fun _ =>
             let wantFins := if dr.finalized then (getFinalizers cached).filter (· != fin) else getFinalizers cached
             orElse (check (getFinalizers b == wantFins) "finalizers of the target changed beyond the decorator's own") fun _ =>
-            (match dr.status with
+            orElse (match dr.status with
              | none => check (((b.get? "status").getD .null).eqv (cachedStatus.getD .null)) "status changed although the hook returned none"
-             | some st => check (((b.get? "status").getD .null).eqv (.obj st)) "status is not what the hook returned")
+             | some st => check (((b.get? "status").getD .null).eqv (.obj st)) "status is not what the hook returned") fun _ =>
+            -- the same footprint on the live object, for a write the API server accepted (the object the sync holds may be stale)
+            (match r.pre, r.post with
+             | some p, some q =>
+               if !r.ok then none else
+               orElse (check ((stripDecorated p).eqv (stripDecorated q)) "an accepted update changed, on the live object, something other than labels, annotations, status and finalizers") fun _ =>
+               orElse (mapFollows "label (live object)" (labelsOf p) (labelsOf q) dr.labels) fun _ =>
+               orElse (mapFollows "annotation (live object)" (annotationsOf p) (annotationsOf q) dr.annotations) fun _ =>
+               check ((getFinalizers q).filter (· != fin) == (getFinalizers p).filter (· != fin)) "an accepted update changed finalizers of the live object that belong to others"
+             | _, _ => none)
           else if r.verb == "updateStatus" then
             match r.pre, r.post with
             | some p, some q => check (!r.ok || (stripStatus p).eqv (stripStatus q)) "the status write altered something other than status"
